@@ -367,7 +367,10 @@ def brute_force_sq(np, positions, types, L, qint, K):
     """independent evaluation of the statement: per-vector S_ab(m), then round(6), group by round(|q|, 6), mean.
     positions: list over frames of (N, d) arrays; types: (N,) ids; L: (d,) edges; qint: (M, d) integer wave vectors.
     -> (keys ascending, {column: group means}, {column: per-vector values}, |q| per vector)"""
-    T, N = len(positions), len(types)
+    types = np.asarray(types)
+    tyf = types if types.ndim == 2 else np.stack([types] * len(positions))      # species membership frame by frame
+    types = tyf[0]
+    T, N = len(positions), tyf.shape[1]
     q = qint.astype(float) * (2 * np.pi / L)[None, :]
     qn = np.sqrt((q ** 2).sum(axis=1))
     per = {}
@@ -376,7 +379,7 @@ def brute_force_sq(np, positions, types, L, qint, K):
         r = np.zeros((T, len(q)), dtype=complex)
         for s in range(T):
             for i in range(N):
-                if a is None or types[i] == a:
+                if a is None or tyf[s][i] == a:
                     r[s] += np.exp(-1j * (q @ positions[s][i]))
         rho[a] = r
     for name, ab in columns(K):
@@ -416,8 +419,15 @@ def _replay_sq(K, d, clause, model, seed, nspecies=None, outfile=False, saveq=Fa
                 L[:] = L[0]                      # cubic cell: many equal |q|
             types = np.array([1 + (i % nspecies) for i in range(N)])
             rng.shuffle(types)
+            if trial in (0, 3, 4):
+                # the species of an atom id may change from frame to frame at constant composition (swap Monte Carlo,
+                # per-frame reordering): rho_a(q) of a frame sums over that frame's a-particles
+                T = max(T, 2)
+                tyf = np.stack([types] + [rng.permutation(types) for _ in range(T - 1)])
+            else:
+                tyf = np.stack([types] * T)
             pos = [rng.uniform(0, 1, size=(N, d)) * L for _ in range(T)]
-            snaps = [RUm.SingleSnapshot(timestep=s, nparticle=N, particle_type=types.copy(), positions=pos[s].copy(), boxlength=L.copy(),
+            snaps = [RUm.SingleSnapshot(timestep=s, nparticle=N, particle_type=tyf[s].copy(), positions=pos[s].copy(), boxlength=L.copy(),
                                         boxbounds=np.column_stack([np.zeros(d), L]), realbounds=np.column_stack([np.zeros(d), L]),
                                         hmatrix=np.diag(L)) for s in range(T)]
             SN = RUm.Snapshots(nsnapshots=T, snapshots=snaps)
@@ -435,7 +445,7 @@ def _replay_sq(K, d, clause, model, seed, nspecies=None, outfile=False, saveq=Fa
                 kw["qrange"] = float(rng.uniform(2.5, 4.5))
                 kw["onlypositive"] = bool(trial == 5)
             of = os.path.join(tmp, f"out{trial}.csv") if outfile else None
-            inputs = {"K": K, "d": d, "N": N, "T": T, "types": types.tolist(), "boxlength": L.tolist(),
+            inputs = {"K": K, "d": d, "N": N, "T": T, "types": tyf.tolist(), "boxlength": L.tolist(),
                       "positions": [p.tolist() for p in pos], **{k: (v.tolist() if hasattr(v, "tolist") else v) for k, v in kw.items()}}
             try:
                 obj = S.sq(SN, outputfile=of, saveqvectors=saveq, **kw)
@@ -444,7 +454,7 @@ def _replay_sq(K, d, clause, model, seed, nspecies=None, outfile=False, saveq=Fa
             except Exception as e:
                 return {"ran": True, "failed": True, "detail": f"raises {type(e).__name__}: {e}", "inputs": inputs}
             tried += 1
-            keys, want, per, qn = brute_force_sq(np, pos, types, L, qint, K)
+            keys, want, per, qn = brute_force_sq(np, pos, tyf, L, qint, K)
             want_cols = ["q"] + [c for c, _ in columns(K)]
             if list(res.columns) != want_cols or len(res) != len(keys):
                 return {"ran": True, "failed": True, "inputs": inputs,
